@@ -397,3 +397,9 @@ package core
 //@ guard MemStorage.locToPairs by MemStorage.Mutex
 //@ func (*MemStorage).loc
 //@   requires[C11.memstorage_loc_needs_lock] heldW(s.Mutex)
+
+// Reading a property of a location does not touch the system's location cache (assumed frame; used by C17).
+//@ func (*Location).GetProp
+//@   modifies allbut(F:sys.CachedLocation.|F:sys.CachedLocations.|MD:string:*sys.CachedLocation|MV:string:*sys.CachedLocation|ML:string:*sys.CachedLocation)
+//@ func (*Context).SetLoc
+//@   modifies ctx.location
